@@ -33,8 +33,11 @@ import (
 //     in the v2 (Addr) and v1 (uint32) encodings; with R's reaction delivered loss-free or lost;
 //   * honest traffic I->T, T->I, O->T (real StartRelays negotiation + handshake through the relay + data);
 //   * tunnel teardown on each leg (peer closes / relay closes / relay silently forgets), re-handshake on each leg,
-//     connection-manager ticks (relay migration, dead-tunnel deletion);
-//   * relayed data, authentically wrapped by every peer, on every relay index R holds and on an unknown index.
+//     connection-manager ticks (relay migration, dead-tunnel deletion); when a leg has two tunnels (after a re-handshake
+//     the older one lingers and still owns the relay slots, on R and on the endpoint) every teardown kind exists for the
+//     primary and for the non-primary ("-2nd") tunnel, on R's side and on the peer's side;
+//   * relayed data, authentically wrapped by every peer with every tunnel it holds with R (primary and lingering), on
+//     every relay index R holds, on every index R held earlier in the history and no longer lists, and on an unknown index.
 // After EVERY event, on every node: relay-state transitions, hostMap.Relays ownership and every forwarded datagram are
 // judged (see audit). The forwarding oracle uses ground truth only: who really sent the frame (whose tunnel key made the
 // outer tag), which index it leaves on, and what the DESTINATION node itself recorded for that index.
@@ -50,7 +53,8 @@ func (c c39Cfg) String() string { return fmt.Sprintf("am_relay=%v/cert-v%d", c.a
 
 type c39Stats struct {
 	transitions, noops, rebuilds, forwards, fwdByData, dataRefused, ctlRefused, ctlAccepted, slotDeaths, honestDelivered,
-	migrations, spoofFinding, otherViolations, exactTransitions, probes int64
+	migrations, spoofFinding, otherViolations, exactTransitions, probes, probesFormer, probesSecond, secondClosed, nonFinalDeletes,
+	nonFinalDeletesWithSlots, fwdOnSecond, fwdOntoDropped int64
 	stateSeen [4]int64
 	trans     map[string]int64
 }
@@ -80,6 +84,9 @@ type c39World struct {
 	hist        []string
 	bad         bool
 	origin      map[string]string // relayed payload -> node that first put it on the wire (retransmissions are not forwards)
+	everR       []uint32          // every relay index R ever listed in this history, in order of first appearance
+	everRSet    map[uint32]bool
+	everSlot    map[string]map[uint32]netip.Addr // per node: every relay index it ever listed -> the peer it listed it for
 	spoofed     []string // crafted requests with a RelayFromAddr the sender does not own that changed R's state
 }
 
@@ -92,6 +99,9 @@ func (w *c39World) violation(sig string, detail map[string]any) {
 	detail["history"] = append([]string{w.cfg.String()}, w.hist...)
 	if sig == c39SpoofSig {
 		w.st.spoofFinding++ // a state reached through the known defect is still explored
+	} else if strings.HasPrefix(sig, "hostMap.Relays holds") {
+		// the state is still probed with relayed data (what the stale index does to traffic gets its own signature)
+		w.st.otherViolations++
 	} else {
 		w.bad = true
 		w.st.otherViolations++
@@ -136,7 +146,54 @@ func c39New(t testing.TB, c *mc.Check, st *c39Stats, cfg c39Cfg) *c39World {
 		}
 	}
 	w.evEmitted, w.evDelivered = nil, nil
+	w.everRSet = map[uint32]bool{}
+	w.everSlot = map[string]map[uint32]netip.Addr{}
 	return w
+}
+
+// second returns node n's non-primary tunnel with peer (after a re-handshake: the older, lingering one), or nil.
+func (w *c39World) second(n *vnode, peer string) *HostInfo {
+	hmap := n.f.hostMap
+	hmap.RLock()
+	defer hmap.RUnlock()
+	hl := hmap.unlockedGetHostList(w.addr[peer])
+	if len(hl) < 2 {
+		return nil
+	}
+	return hl[1]
+}
+
+// noteR records the relay indexes R lists now (the probe later sends data on those that R dropped).
+func (w *c39World) noteR() {
+	for _, s := range w.slots(w.nodes["r"]) {
+		if !w.everRSet[s.r.LocalIndex] {
+			w.everRSet[s.r.LocalIndex] = true
+			w.everR = append(w.everR, s.r.LocalIndex)
+		}
+	}
+	for _, name := range w.names {
+		if w.everSlot[name] == nil {
+			w.everSlot[name] = map[uint32]netip.Addr{}
+		}
+		for _, s := range w.slots(w.nodes[name]) {
+			w.everSlot[name][s.r.LocalIndex] = s.r.PeerAddr
+		}
+	}
+}
+
+// gone lists the relay indexes R listed earlier in the history and lists no more, in order of first appearance.
+func (w *c39World) gone() []uint32 {
+	cur := map[uint32]bool{}
+	for _, s := range w.slots(w.nodes["r"]) {
+		cur[s.r.LocalIndex] = true
+	}
+	var out []uint32
+	for _, x := range w.everR {
+		if !cur[x] {
+			out = append(out, x)
+		}
+	}
+	return out
 }
 
 // c39TB lets the world builder survive a flake of the shared node assembly on an oversubscribed machine ("lighthouse
@@ -391,7 +448,7 @@ func (w *c39World) keyOf(raw bool) string {
 // ---- events -----------------------------------------------------------------------------------------------------
 
 type c39Ev struct {
-	K    string // req resp data honest close closeR silentR rehs rehsR tickR tickAll
+	K    string // req resp data honest close closeR silentR silent (each also "-2nd") rehs rehsR tickR tickAll
 	S    string // acting peer (sender of the control message / data frame, peer of the leg)
 	From string // claimed RelayFromAddr (node name)
 	To   string // claimed RelayToAddr / honest destination
@@ -401,6 +458,8 @@ type c39Ev struct {
 	Ridx int  // resp: 0 fresh ResponderRelayIndex, 1 the sender's real local index for a slot with peer From
 	V1   bool // v1 encoding (OldRelay*Addr)
 	Loss bool // R's reaction is lost
+	Gone int  // data: k>0 = the frame carries the k-th relay index that R listed earlier and lists no more (Idx unused)
+	Old  bool // data: the frame is wrapped with the sender's non-primary (lingering) tunnel with R
 }
 
 func (e c39Ev) String() string {
@@ -410,7 +469,11 @@ func (e c39Ev) String() string {
 	case "resp":
 		return fmt.Sprintf("resp:%s(from=%s,to=%s,init=slot%d,ridx=%s%s)", e.S, e.From, e.To, e.Idx, []string{"fresh", "own"}[e.Ridx], map[bool]string{true: ",v1"}[e.V1])
 	case "data":
-		return fmt.Sprintf("data:%s(slot%d)", e.S, e.Idx)
+		via := map[bool]string{true: ",wrapped-with-2nd-tunnel"}[e.Old]
+		if e.Gone > 0 {
+			return fmt.Sprintf("data:%s(former-index%d%s)", e.S, e.Gone, via)
+		}
+		return fmt.Sprintf("data:%s(slot%d%s)", e.S, e.Idx, via)
 	case "honest":
 		return fmt.Sprintf("honest:%s->%s", e.S, e.To)
 	}
@@ -533,9 +596,16 @@ func (w *c39World) apply(e c39Ev) (dirty bool) {
 	case "data":
 		x := w.nodes[e.S]
 		hi := x.f.hostMap.QueryVpnAddr(w.addr["r"])
+		if e.Old {
+			hi = w.second(x, "r")
+		}
 		rs := w.slots(r)
 		idx := uint32(0x7e57da7a)
-		if e.Idx >= 0 && e.Idx < len(rs) {
+		if g := w.gone(); e.Gone > 0 {
+			if e.Gone <= len(g) {
+				idx = g[e.Gone-1]
+			}
+		} else if e.Idx >= 0 && e.Idx < len(rs) {
 			idx = rs[e.Idx].r.LocalIndex
 		}
 		if hi != nil && hi.ConnectionState != nil {
@@ -583,6 +653,38 @@ func (w *c39World) apply(e c39Ev) (dirty bool) {
 		dirty = true
 		if hi := r.f.hostMap.QueryVpnAddr(w.addr[e.S]); hi != nil {
 			r.f.closeTunnel(hi)
+		}
+	case "close-2nd": // the peer closes its NON-PRIMARY tunnel with R (the older one after a re-handshake) and says so
+		dirty = true
+		x := w.nodes[e.S]
+		if hi := w.second(x, "r"); hi != nil {
+			x.f.sendCloseTunnel(hi)
+			x.f.closeTunnel(hi)
+			w.st.secondClosed++
+			w.collect()
+			w.run()
+		}
+	case "silent-2nd": // the peer forgets its non-primary tunnel with R without telling (connection-manager deletion)
+		dirty = true
+		x := w.nodes[e.S]
+		if hi := w.second(x, "r"); hi != nil {
+			x.f.closeTunnel(hi)
+			w.st.secondClosed++
+		}
+	case "closeR-2nd": // R closes its non-primary tunnel with the peer and says so
+		dirty = true
+		if hi := w.second(r, e.S); hi != nil {
+			r.f.sendCloseTunnel(hi)
+			r.f.closeTunnel(hi)
+			w.st.secondClosed++
+			w.collect()
+			w.run()
+		}
+	case "silentR-2nd": // R forgets its non-primary tunnel with the peer without telling
+		dirty = true
+		if hi := w.second(r, e.S); hi != nil {
+			r.f.closeTunnel(hi)
+			w.st.secondClosed++
 		}
 	case "rehs": // the peer handshakes again with R (a second tunnel appears, the old one lingers)
 		dirty = true
@@ -702,6 +804,13 @@ func (w *c39World) menu(thorough bool) []c39Ev {
 		if thorough {
 			mn = append(mn, c39Ev{K: "rehsR", S: s})
 		}
+		// a leg with two tunnels: the non-primary one can go away on its own, on either side
+		if w.second(w.nodes[s], "r") != nil {
+			mn = append(mn, c39Ev{K: "close-2nd", S: s}, c39Ev{K: "silent-2nd", S: s})
+		}
+		if w.second(r, s) != nil {
+			mn = append(mn, c39Ev{K: "closeR-2nd", S: s}, c39Ev{K: "silentR-2nd", S: s})
+		}
 	}
 	mn = append(mn, c39Ev{K: "tickR"}, c39Ev{K: "tickAll"})
 	return mn
@@ -711,16 +820,30 @@ func (w *c39World) menu(thorough bool) []c39Ev {
 // place on a world that has just reached a state; audit judges every resulting forward.
 func (w *c39World) probe() {
 	n := len(w.slots(w.nodes["r"]))
+	ng := len(w.gone())
 	nh := len(w.hist)
 	for _, s := range []string{"i", "t", "o"} {
-		for k := -1; k < n; k++ {
-			if w.bad {
-				return
+		for _, old := range []bool{false, true} {
+			if old && w.second(w.nodes[s], "r") == nil {
+				continue
 			}
-			w.apply(c39Ev{K: "data", S: s, Idx: k})
-			w.st.transitions++
-			w.st.probes++
-			w.hist = w.hist[:nh]
+			for k := -1 - ng; k < n; k++ {
+				if w.bad {
+					return
+				}
+				e := c39Ev{K: "data", S: s, Idx: k, Old: old}
+				if k < -1 {
+					e.Idx, e.Gone = 0, -1-k // former indexes of R
+					w.st.probesFormer++
+				}
+				if old {
+					w.st.probesSecond++
+				}
+				w.apply(e)
+				w.st.transitions++
+				w.st.probes++
+				w.hist = w.hist[:nh]
+			}
 		}
 	}
 }
@@ -785,6 +908,7 @@ func (w *c39World) heardFrom(name string, peer string) bool {
 
 func (w *c39World) audit(e c39Ev, before map[c39SlotID]Relay) {
 	after := w.allSlots()
+	w.noteR()
 	ev := e.String()
 	single := len(w.evDelivered) <= 1 // one message handled: transitions are judged exactly; otherwise as compositions
 	// (a) relay-state transitions, on every node
@@ -795,6 +919,14 @@ func (w *c39World) audit(e c39Ev, before map[c39SlotID]Relay) {
 				w.violation("a relay slot vanished from a tunnel that is still alive", map[string]any{"node": id.node, "slot": vRelayStr(&b), "event": ev})
 			} else {
 				w.st.slotDeaths++
+				// vacuity: the tunnel that owned the slot went away while another tunnel with the same peer stays
+				if len(id.hi.vpnAddrs) > 0 && w.nodes[id.node].f.hostMap.QueryVpnAddr(id.hi.vpnAddrs[0]) != nil {
+					if id.node == "r" {
+						w.st.nonFinalDeletesWithSlots++
+					} else {
+						w.st.nonFinalDeletes++
+					}
+				}
 			}
 			continue
 		}
@@ -897,6 +1029,23 @@ func (w *c39World) audit(e c39Ev, before map[c39SlotID]Relay) {
 			w.violation("a node that is not configured as a relay forwarded a relayed datagram", det)
 			continue
 		}
+		// the index the datagram ARRIVED on must be listed by a live tunnel of the relay with the true sender (before or
+		// after the event): relay indexes disappear with the tunnel that owns them
+		inOK := false
+		for _, snap := range []map[c39SlotID]Relay{before, after} {
+			for id, sl := range snap {
+				if id.node == fwd.spec.Name && sl.LocalIndex == inIdx && w.peerName(id.hi) == src.spec.Name {
+					inOK = true
+					if w.second(fwd, src.spec.Name) == id.hi {
+						w.st.fwdOnSecond++
+					}
+				}
+			}
+		}
+		if !inOK {
+			det["arrived_on_index"] = inIdx
+			w.violation("the relay forwarded a datagram that arrived on a relay index none of its live tunnels with the sender lists (the index outlived its tunnel)", det)
+		}
 		dst := w.net.byUDP[em.To.Addr()]
 		if dst == nil {
 			w.violation("a relayed datagram was forwarded to an address that is not a peer's", det)
@@ -946,6 +1095,14 @@ func (w *c39World) audit(e c39Ev, before map[c39SlotID]Relay) {
 					r := b
 					dslot = &r
 				}
+			}
+		}
+		if dslot == nil {
+			// the destination listed the index earlier and dropped it with a tunnel it forgot WITHOUT telling the relay (the
+			// relay's onward leg is judged above from the relay's own records): still the destination's own announcement
+			if peer, ok := w.everSlot[dst.spec.Name][oh.RemoteIndex]; ok {
+				dslot = &Relay{LocalIndex: oh.RemoteIndex, PeerAddr: peer, State: Disestablished}
+				w.st.fwdOntoDropped++
 			}
 		}
 		// an index the destination itself announced in a crafted (hostile) message is its own doing: a hostile destination is no victim
@@ -1088,19 +1245,26 @@ func TestVerifC39(t *testing.T) {
 		{hIT},
 		{half},
 		{hIT, {K: "close", S: "t"}, {K: "rehs", S: "t"}},
-		{hIT, hOT},
+		// a leg with two tunnels: the older one lingers and owns the relay slots (on R: forwarding slots, on the endpoint:
+		// terminal slots); every teardown of either tunnel, on either side, is one event away
 		{hIT, {K: "rehs", S: "i"}},
-		{hIT, {K: "rehs", S: "i"}, {K: "tickR"}},
+		{hIT, {K: "rehs", S: "t"}},
+		{hIT, hOT},
+		{hIT, {K: "rehs", S: "i"}, {K: "tickR"}}, // ... and the connection manager has looked at both once (deletion is one tick away)
 		{hIT, {K: "silentR", S: "i"}, {K: "rehs", S: "i"}},
+		{hIT, {K: "rehs", S: "i"}, {K: "honest", S: "t", To: "i"}, {K: "tickAll"}}, // two tunnels, traffic, every node's connection manager ran
 	}
 	type job struct {
 		cfg   c39Cfg
 		share float64
 		roots [][]c39Ev
 	}
-	nA := mc.Pick(c, 4, len(anchors))
+	nA := mc.Pick(c, 6, len(anchors))
 	jobs := []job{{c39Cfg{true, cert.Version2}, 0.62, anchors[:nA]}, {c39Cfg{false, cert.Version2}, 0.12, anchors[:2]},
 		{c39Cfg{true, cert.Version1}, 0.18, anchors[:2]}, {c39Cfg{false, cert.Version1}, 0.08, anchors[:1]}}
+	if c.Thorough() {
+		jobs[2].roots = [][]c39Ev{anchors[0], anchors[1], anchors[4]} // v1 certificates: the two-tunnel leg as well
+	}
 	budget := mc.Pick(c, 34.0, 800.0)
 	if v, err := strconv.ParseFloat(os.Getenv("VERIF_BUDGET_S"), 64); err == nil && v > 0 && 0.92*v < budget {
 		budget = 0.92 * v
@@ -1130,6 +1294,12 @@ func TestVerifC39(t *testing.T) {
 	c.Set("per_configuration", perCfg)
 	c.Set("world_rebuilds", st.rebuilds)
 	c.Set("data_probe_events", st.probes)
+	c.Set("data_probe_events_on_former_indexes_of_the_relay", st.probesFormer)
+	c.Set("data_probe_events_wrapped_with_a_lingering_tunnel", st.probesSecond)
+	c.Set("non_primary_tunnel_teardowns", st.secondClosed)
+	c.Set("slots_gone_with_a_tunnel_while_another_tunnel_with_that_peer_stays", map[string]int64{"relay": st.nonFinalDeletesWithSlots, "endpoints": st.nonFinalDeletes})
+	c.Set("forwards_on_slots_of_a_lingering_tunnel", st.fwdOnSecond)
+	c.Set("forwards_onto_an_index_the_destination_dropped_without_telling_the_relay", st.fwdOntoDropped)
 	c.Set("anchor_histories", fmt.Sprint(anchors[:nA]))
 	c.Set("events_without_effect_on_state", st.noops)
 	c.Set("forwarded_datagrams_judged", st.forwards)
@@ -1145,6 +1315,7 @@ func TestVerifC39(t *testing.T) {
 	c.Assume("am_relay is fixed per history (forwarding does not re-check it; the quantifier does not ask for reloads)")
 	c.Assume("valid transitions (weak reading): creation as Requested/PeerRequested (forwarding) or Requested/Established (terminal); Requested|PeerRequested->Established; any->Disestablished; Disestablished->Requested|Established; Established|PeerRequested->Requested when the relay (re-)asks the peer; nothing moves into PeerRequested; Requested->Established needs a message from the slot's owner")
 	c.Assume("'the pair that negotiated the slot' is judged at the destination: the index a forwarded datagram leaves on must be one the destination itself holds for the TRUE sender (or, for indexes only announced in crafted messages, one it announced on its current tunnel)")
+	c.Assume("an endpoint that forgets a tunnel with the relay without telling it (silent-2nd) cannot make the relay violate the property: a forward onto an index the destination listed earlier for the true sender is judged by the relay's own records of the onward leg")
 	c.Assume("the state of the incoming leg is not judged (the statement names the onward leg); a sender using a slot before answering is taken as consent")
 	c.Assume("virtual time and timer-wheel positions are not part of the canonical state; counters, keys and raw index values are abstracted")
 	c.Set("transitions_judged_exactly_single_message_events", st.exactTransitions)
@@ -1155,6 +1326,8 @@ func TestVerifC39(t *testing.T) {
 		c.Require(st.dataRefused > 0 && st.ctlRefused > 0 && st.ctlAccepted > 0, "refusals not reached: data %d ctl %d accepted %d", st.dataRefused, st.ctlRefused, st.ctlAccepted)
 		c.Require(st.honestDelivered > 0, "honest relayed traffic never arrived")
 		c.Require(st.slotDeaths > 0, "no relay slot ever went away with its tunnel")
+		c.Require(st.nonFinalDeletesWithSlots > 0 && st.nonFinalDeletes > 0, "no relay slot went away with a tunnel while a second tunnel with the same peer stayed (relay %d, endpoints %d)", st.nonFinalDeletesWithSlots, st.nonFinalDeletes)
+		c.Require(st.probesFormer > 0 && st.probesSecond > 0 && st.secondClosed > 0, "former-index / lingering-tunnel probes not reached: %d %d %d", st.probesFormer, st.probesSecond, st.secondClosed)
 		c.Require(st.stateSeen[0] > 0 && st.stateSeen[1] > 0 && st.stateSeen[2] > 0 && st.stateSeen[3] > 0, "slot states not all reached: %v", st.stateSeen)
 		c.Require(len(st.trans) >= 4, "too few distinct state transitions observed: %v", st.trans)
 	}
